@@ -44,17 +44,56 @@ def plan(tier, seed):
     return t
 
 
-def run_case(p, n, conn, g, table=None, retain=None, stratum="random"):
+def reused_object_sequence(p, n, conn, rnd, table, retain):
+    """One QuantumCircuit object passed several times, edited in place by the caller between the calls (also by
+    edits that keep the number of instructions): every answer must belong to the contents at call time."""
+    g = ws.random_gates(n, rnd.choice([4, 9, 25]), rnd, "uniform")
+    qc = ws.qiskit_circuit(g, n)
+    for step in range(4):
+        run_case(p, n, conn, list(g), table, retain, "reused-object", qc_obj=qc)
+        kind = rnd.choice(["replace-last", "replace-mid", "rebuild-same-length", "append"])
+        if not g:
+            kind = "append"
+        if kind == "replace-last":
+            qc.data.pop()
+            g = g[:-1]
+            new = ws.random_gates(n, 1, rnd, "uniform")[0]
+        elif kind == "replace-mid":
+            k = rnd.randrange(len(g))
+            new = None
+            g2 = g[:k] + ws.random_gates(n, 1, rnd, "uniform") + g[k + 1:]
+            fresh = ws.qiskit_circuit(g2, n)
+            qc.data[k] = fresh.data[k]
+            g = g2
+        elif kind == "rebuild-same-length":
+            g = ws.random_gates(n, len(g), rnd, "uniform")
+            qc.clear()
+            new = None
+            for nm, qs in g:
+                getattr(qc, "id" if nm in ("id", "i") else nm)(*qs)
+        else:
+            new = ws.random_gates(n, 1, rnd, "uniform")[0]
+        if kind in ("replace-last", "append"):
+            getattr(qc, "id" if new[0] in ("id", "i") else new[0])(*new[1])
+            g = g + [new]
+        p.counters["in-place caller edit: " + kind] += 1
+    run_case(p, n, conn, list(g), table, retain, "reused-object", qc_obj=qc)
+
+
+def run_case(p, n, conn, g, table=None, retain=None, stratum="random", qc_obj=None):
     from htstabilizer.stabilizer_circuits import compress_preparation_circuit
     from htstabilizer.stabilizer import Stabilizer
     from htstabilizer.lc_classes import determine_lc_class
     from htstabilizer import circuit_lookup
     case = {"n": n, "conn": conn, "gates": [[nm, list(qs)] for nm, qs in g]}
     p.evals += 1
-    qc = ws.qiskit_circuit(g, n)
+    qc = qc_obj if qc_obj is not None else ws.qiskit_circuit(g, n)
     qc.name = "input-circuit"
     qc.metadata = {"tag": 7}
     before = gates_of(qc)
+    if [(("id" if nm == "i" else nm), qs) for nm, qs in g] != before:
+        p.errors.append("harness: reused circuit object out of sync with its gate list")
+        return
     ok, out = call(compress_preparation_circuit, qc, conn)
     key = "compress n=%d conn=%s " % (n, conn)
     if not ok:
@@ -115,6 +154,9 @@ def work(task):
         kind, n, conn, cnt, seed = task
         rnd = random.Random("%s-%s-%s-%s" % (kind, n, conn, seed))
         for i in range(cnt):
+            if kind == "cheap" and i % 4 == 3:
+                reused_object_sequence(p, n, conn, rnd, table, retain)
+                continue
             if kind == "cheap":
                 g = ws.cheap_uncoupled(n, rnd)
                 # the same state twice in a row with different Pauli frames (history effects on cached objects)
